@@ -145,6 +145,16 @@ class Raw:
         return self.fn(*a, **kw)
 
 
+class Rec:
+    """A record with attributes (what a row of an event loop looks like); compares by identity like any plain object."""
+
+    def __init__(self, **kw):
+        self.__dict__.update(kw)
+
+    def __repr__(self):
+        return "Rec(%s)" % ", ".join("%s=%r" % kv for kv in sorted(self.__dict__.items()))
+
+
 def _same_result(a, b):
     if isinstance(a, np.ndarray) or isinstance(b, np.ndarray):
         try:
@@ -163,6 +173,9 @@ FUNCS = {
     "batch": ("lambda d: d['x'] + d['y']", lambda rng: {"x": np.array([rng.choice([0.0, 1.0]) for _ in range(rng.choice([1, 2]))]), "y": np.array([1.0, 2.0])[: rng.choice([1, 2])]}),
     "kwargs": ("lambda x, k=1: x * k", lambda rng: rng.choice([0.0, 1.0, 2.5, 3])),
     "two": ("lambda x, y: x - y", lambda rng: rng.choice([0.0, 1.0, 2.5, 3])),
+    # an event object with attributes, a DataFrame: neither dict nor array, both refillable in place
+    "attrs": ("lambda ev: ev.x * 2 + ev.y", lambda rng: Rec(x=rng.choice([0.0, 1.0, 2.5]), y=rng.choice([0.5, 1, 2]))),
+    "frame": ("lambda d: (d['x'] * 2 + 1).to_numpy()", lambda rng: __import__("pandas").DataFrame({"x": [rng.choice([0.0, 1.0, 2.5]) for _ in range(rng.choice([1, 2]))]})),
     # functions that tell +0.0 from -0.0 (the two compare equal, the function values differ)
     "signed": ("lambda x: __import__('math').copysign(1.0, x)", lambda rng: rng.choice([0.0, -0.0, 0.0, -0.0, 1.0, -2.5])),
     "signedarray": ("lambda a: __import__('numpy').copysign(1.0, a)", lambda rng: np.array([rng.choice([0.0, -0.0, 1.0]) for _ in range(rng.choice([1, 2]))])),
@@ -176,6 +189,12 @@ def _mutate_in_place(args, rng):
     for a in list(args[0]) + list(args[1].values()):
         if isinstance(a, np.ndarray) and a.size and a.flags.writeable:
             a[rng.randrange(a.size)] = rng.choice([5.0, -7.5, 0.25])
+            done = True
+        elif isinstance(a, Rec):
+            a.x = rng.choice([5.0, -7.5, 0.25])
+            done = True
+        elif type(a).__name__ == "DataFrame":
+            a.loc[:, "x"] = [rng.choice([5.0, -7.5, 0.25]) for _ in range(len(a))]
             done = True
         elif isinstance(a, dict) and a:
             key = rng.choice(sorted(a))
@@ -196,6 +215,10 @@ def _clone_arg(a):
         return a.copy()
     if isinstance(a, dict):
         return {k: _clone_arg(v) for k, v in a.items()}
+    if isinstance(a, Rec):
+        return Rec(**a.__dict__)
+    if type(a).__name__ == "DataFrame":
+        return a.copy()
     if isinstance(a, float):
         return float(repr(a)) if a == a else float("nan")
     return a
